@@ -15,8 +15,10 @@ CHECKS = {
         text=('Theorems (all integers d,y,wd,diy; every month): each holiday function GENERATED from calendar.py equals '
               'its readable rule list; the Easter table equals the Gregorian computus for 1901-2199; is_holiday '
               'dispatches by name; adjust/add_business_days laws (result is a business day, identity on business days, '
-              'nearest in direction, idempotent, MODIFIED switches only on month change) proved for the generic '
-              'algorithm at any predicate. Tie: models regenerated from the source on every run + exhaustive '
+              'nearest in direction, idempotent, MODIFIED switches only on month change; add_business_days visits consecutive '
+              'days of which exactly |n| are business days and lands on one) proved for the generic algorithm at any '
+              'predicate; +n then -n returns to a business-day start, proved for the generic loop and instantiated for the '
+              'model of the code (every calendar, valid start, n; datetime steps forward/backward are inverse). Tie: models regenerated from the source on every run + exhaustive '
               'correspondence implementation = model = spec over 15 calendars x every date 1901-2199.'),
         note=BASE_NOTE + 'Rule lists are a reading of the named rules in calendar.py; termination of the adjust walk is '
              'validated exhaustively, not proved.',
@@ -31,10 +33,11 @@ CHECKS['C15'] = dict(
           'SIMPLE, ACT/ACT ICMA and same-year ACT/ACT ISDA equals its ISDA 2006 / ICMA formula; zero on equal dates '
           '(with the two corners where the published rule itself is non-zero proved as such), sign and additivity for '
           'ACT/fixed, ICMA regular period = 1/frequency, and error_kind: no failure other than FinError is reachable '
-          '(ZeroDivision only for a zero-length ICMA period). Multi-year ACT/ACT ISDA and ACT/365L against the spec '
-          'are validated by the correspondence (implementation = generated model = source-independent spec, numerator '
+          '(ZeroDivision only for a zero-length ICMA period). Multi-year ACT/ACT ISDA = closed form of the per-year sum (its '
+          'shape across years, antisymmetry) are theorems in Props/C15b; ACT/365L against the spec '
+          'is validated by the correspondence (implementation = generated model = source-independent spec, numerator '
           'and denominator exact) on >=6e4 date pairs per quick run.'),
-    note=BASE_NOTE + 'Spec formulas are a transcription of ISDA 2006 4.16 / ICMA 251; multi-year ACT/ACT ISDA = per-year sum is validated, not yet a theorem.',
+    note=BASE_NOTE + 'Spec formulas are a transcription of ISDA 2006 4.16 / ICMA 251; ACT/365L leap logic is validated against the spec, not a theorem.',
     technique='Lean 4 theorems on a model regenerated from the source (py2lean) + model/implementation/spec correspondence with exact rationals',
     design='§5 C15')
 
